@@ -300,43 +300,50 @@ func aConfigs(c *fw.Ctx, layouts []LayoutDef, eras []string, smallPages []int) [
 }
 
 func runC01(c *fw.Ctx) {
-	layouts := append([]LayoutDef{}, CoreLayouts...)
-	depth := 3
-	if c.Thorough() {
-		depth = 4
-		layouts = append(layouts, AllSmallLayouts()...)
+	type plan struct {
+		ac      aConfig
+		depth   int
+		maxCore int
 	}
-	pages := []int{16, 20}
-	maxCore := 300
+	var plans []plan
+	depth, maxCore, pages := 3, 300, []int{16, 20}
 	if c.Thorough() {
-		pages = []int{16, 20, 64}
-		maxCore = 3000
+		depth, maxCore, pages = 4, 3000, []int{16, 20, 64}
 	}
-	cfgs := aConfigs(c, layouts, []string{"mid", "high", "low"}, pages)
+	for _, ac := range aConfigs(c, CoreLayouts, []string{"mid", "high", "low"}, pages) {
+		plans = append(plans, plan{ac, depth, maxCore})
+	}
 	// the multi-page layout at the real page size: fewer, larger states
 	for _, now := range Clocks(LP.Archs, false, []string{"mid"})[:2] {
-		cfgs = append(cfgs, aConfig{LP, 4096, now})
+		plans = append(plans, plan{aConfig{LP, 4096, now}, 2, 40})
 	}
-	c.R.Bounds["layouts"] = fmt.Sprintf("%d (core L1-L9 + LP; thorough: + every valid list with k<=3, S0<=3, ratio<=4, Ni<=8, sum<=16)", len(layouts)+1)
+	nextra := 0
+	if c.Thorough() {
+		// many more layouts, each with the quick tier's settings on three clocks of the mid era
+		for _, ld := range ThoroughExtraLayouts() {
+			nextra++
+			cl := Clocks(ld.Archs, false, []string{"mid"})
+			for _, now := range []int64{cl[0], cl[len(cl)/2], cl[len(cl)-1]} {
+				plans = append(plans, plan{aConfig{ld, 4096, now}, 3, 200})
+			}
+		}
+	}
+	c.R.Bounds["layouts"] = fmt.Sprintf("core L1-L9 + LP; thorough: + %d further layouts (every valid list with k<=2, S0<=3, ratio<=4, Ni<=8 and every 12th three-level one) at depth 3", nextra)
 	c.R.Bounds["history"] = fmt.Sprintf("generator depth %d + 1 operation of the full alphabet from every core state", depth)
-	c.R.Bounds["batch"] = "<=3 arbitrary points in every order + dense batches"
+	c.R.Bounds["batch"] = "<=3 arbitrary points in every order + dense batches + future-dated points"
 	c.R.Bounds["pages"] = fmt.Sprintf("4096 on every clock; %v on two phases", pages)
 	c.R.Bounds["core_states_per_config"] = fmt.Sprint(maxCore)
 	c.R.Bounds["method"] = "sum, xff 0"
-	for _, ac := range cfgs {
+	for _, pl := range plans {
 		if !c.Mine() {
 			continue
 		}
 		if c.Expired() {
 			return
 		}
+		ac := pl.ac
 		cfg := ACfg{Tag: ac.ld.Tag, Spec: ac.ld.Spec, Archs: ac.ld.Archs, Method: 2, XFF: 0, Page: ac.page}
-		e := &Explorer{C: c, Cfg: cfg, Now0: ac.now, Depth: depth, Gen: c01Gen(cfg.Archs), Full: c01Full(cfg.Archs), Judge: c01Judge, MaxCore: maxCore}
-		isLP := ac.ld.Tag == "LP"
-		if isLP {
-			e.Depth = 2
-			e.MaxCore = 40
-		}
+		e := &Explorer{C: c, Cfg: cfg, Now0: ac.now, Depth: pl.depth, Gen: c01Gen(cfg.Archs), Full: c01Full(cfg.Archs), Judge: c01Judge, MaxCore: pl.maxCore}
 		e.OnCore = func(st AState, rings []wsp.Ring) { c01Sweep(c, cfg, st, rings, false, false) }
 		e.OnSucc = func(st AState, rings []wsp.Ring) { c01Sweep(c, cfg, st, rings, false, true) }
 		e.Run()
